@@ -71,7 +71,7 @@ def gappedFacts : List (String × String) :=
     ("gapped.region_result", "max_score-init_score,trace_list"),
     ("gapped.region_cut", "trace_list[:max_number]"),
     ("gapped.fill.k_range", "1,code1.shape[0]+code2.shape[0]+1"),
-    ("gapped.fill.i_min", "_min(i_min_k_1,i_min_k_2)"),
+    ("gapped.fill.i_min", "_min(i_min_k_1,i_min_k_2+1)"),
     ("gapped.fill.i_max", "_max(i_max_k_1+1,i_max_k_2+1)"),
     ("gapped.fill.i_min_clip", "_max(i_min,k-code2.shape[0])"),
     ("gapped.fill.i_max_clip", "_min(i_max,code1.shape[0])"),
